@@ -1,0 +1,15 @@
+//go:build verif
+
+package globalfilter
+
+/*@
+// runs the before pipeline, the handler (which must be a pipeline) and the after pipeline (C02 verifies
+// Pipeline.HandleWithBeforeAfter); here: the handler given is the one that handles the request
+func (gf *GlobalFilter) Handle(ctx *context.Context, handler context.Handler)
+  trusted
+  requires gf != nil && ctx != nil
+  requires handler-is-a-pipeline: typeIs(handler, "*pipeline.Pipeline")
+  modifies outResp, outRespTyp, handledBy, handledCount
+  ensures handledCount == old(handledCount) + 1 && handledBy == ifaceVal(handler)
+  ensures an-http-response-left-by-a-pipeline-is-complete: outResp != 0 && outRespTyp == typeTag("*httpprot.Response") ==> allocated(ptr(outResp, "*httpprot.Response")) && ptr(outResp, "*httpprot.Response").Response != nil && ptr(outResp, "*httpprot.Response").Response.Header != nil
+@*/
